@@ -38,6 +38,7 @@ var c17OpNames = []string{
 	"item.String", "item.ToBytes", "item.Variables", "item.Size", "item.Fill", "item.FillEllipsis",
 	"msg.String", "msg.ToBytes", "msg.Variables", "msg.Header", "msg.SetWaitBit", "msg.SetSession", "msg.Fill", "msg.SystemBytes",
 	"sml.Parse", "hsms.Parse", "build.List", "hsms.ParseRejected", "hsms.ParseRejected", "sml.ParseRejected",
+	"complete.SetSession", "complete.SetWaitBit", "complete.Fill",
 }
 
 type c17Shared struct {
@@ -98,6 +99,13 @@ func (s *c17Shared) run(op string) string {
 			return "rejected"
 		}
 		return string(m.ToBytes())
+	case "complete.SetSession":
+		// deriving from the complete message while others encode it for the first time
+		return string(s.complete.SetSessionIDAndSystemBytes(321, []byte{4, 3, 2, 1}).ToBytes())
+	case "complete.SetWaitBit":
+		return string(s.complete.SetWaitBit(true).ToBytes())
+	case "complete.Fill":
+		return string(s.complete.FillVariables(s.fill).ToBytes())
 	case "hsms.ParseRejected":
 		// a well-formed frame that only the message / item constructors refuse (panic + recover path of the decoder)
 		_, ok := hsms.Parse(s.rejected)
